@@ -97,6 +97,8 @@ EffectsSeq(e) == LET sel == SelectSeq(e.cb, LAMBDA c : c.k \in EffectKinds) IN [
 NValid(at) == Cardinality({i \in Idx(at) : at.cm[i].k = "cm" /\ at.cm[i].v = at.v /\ at.cm[i].valid})
 NEarlyBad(at) == Cardinality({i \in Idx(at) : at.cm[i].k = "cm" /\ at.cm[i].v = at.v /\ ~at.cm[i].valid /\ at.cm[i].early})
 KF1(at) == ~at.amev /\ NValid(at) < M(at.n) /\ NValid(at) + NEarlyBad(at) >= M(at.n)
+\* the PROPOSER of a view can hold unverified commits only if the application's NewBlockFromContext returned no block at some
+\* moment of that view (its own path validates what it received early after storing its request - unless no header can be built)
 
 Honest(n) == n \notin Range(run.faulty)
 Forks(e, j) == {<<m, k>> \in {<<m, k>> \in (DOMAIN acc) \X (1..8) : k <= Len(acc[m])} :
@@ -135,7 +137,7 @@ SentBefore(e, j) == SentBase(e) \cup UNION {OwnAt(e, k) : k \in {x \in Bcs(e) : 
 \* KF-1 is the onPrepareRequest path: a node that broadcast the view's proposal itself went through sendPrepareRequest, which
 \* validates what it had received early AFTER storing its request - the known finding does not cover it
 OwnProposalFor(e, j) == \E p \in SentBefore(e, j) : p.t = "PrepareRequest" /\ p.h = e.cb[j].at.h /\ p.v = e.cb[j].at.v /\ p.from = e.cb[j].at.me
-KF1At(e, j) == KF1(e.cb[j].at) /\ ~OwnProposalFor(e, j)
+KF1At(e, j) == KF1(e.cb[j].at) /\ (~OwnProposalFor(e, j) \/ e.cb[j].at.nilSeen)
 NonEquivocation(e, j) ==
   \A a \in {p \in OwnAt(e, j) : p.h = e.cb[j].at.h} :
      \A b \in {q \in SentBefore(e, j) : q.h = a.h} : ~Conflict(a, b)
@@ -150,12 +152,12 @@ LockViewBefore(e, j) ==
        IN e.cb[CHOOSE k \in ks : \A x \in ks : k <= x].at.v
 \* at every snapshot-bearing callback: no ChangeView broadcast and no other view while locked
 CommitLockCb(e, j) ==
-  (LockedBefore(e, j) /\ e.cb[j].at.started) =>
+  (LockedBefore(e, j) /\ e.cb[j].at.started /\ ~e.cb[j].at.watch) =>      \* a validator demoted to watch-only is an observer from then on
      /\ ~(e.cb[j].k = "Broadcast" /\ e.cb[j].m.t = "ChangeView")
      /\ e.cb[j].at.v = LockViewBefore(e, j)
 SnapCbs(e) == {j \in 1..Len(e.cb) : e.cb[j].k \in {"Broadcast", "ProcessBlock", "ProcessPreBlock", "StopTxFlow"}}
 CommitLockPost(e, pre) ==
-  (lock[e.n].k # "none" /\ e.call \notin {"Start", "Reset"}) => e.post.v = pre.v /\ e.post.h = pre.h
+  (lock[e.n].k # "none" /\ e.call \notin {"Start", "Reset"} /\ ~e.post.watch) => e.post.v = pre.v /\ e.post.h = pre.h
 ViewMonotone(e, j) ==
   LET m == e.cb[j].m IN
     (m.h = e.cb[j].at.h /\ e.call \notin {"Start", "Reset"}) => m.v >= maxv[e.n]
@@ -618,8 +620,10 @@ DivergeDetail(e, pre, cfg) ==
 Step ==
   /\ l <= Len(TLog) /\ ~IsRunStart(TLog[l]) /\ ~IsRunEnd(TLog[l]) /\ ~IsPair(TLog[l])
   /\ LET e == TLog[l]
-         pre == IF e.fresh THEN NotStarted ELSE st[e.n]
          cfg == IF "cfg" \in DOMAIN e THEN e.cfg ELSE cfgs[e.n]
+         pre0 == IF e.fresh THEN NotStarted ELSE st[e.n]
+         \* the watch-only flag is a callback of the application: it may have been set since the previous call returned
+         pre == IF pre0.started THEN [pre0 EXCEPT !.watch = (pre0.me < 0 \/ cfg.watch)] ELSE pre0
          V == StepViolations(e, pre, cfg)
          conf == IF ~CheckConformance \/ e.panic # "" THEN "off"
                  ELSE IF TooManyOrders(pre, e) \/ ~Sane(pre) \/ ~Sane(e.post) THEN "skipped"
